@@ -1043,6 +1043,21 @@ def unit_slicing(cname):
     return Unit('slicing/%s' % cname, run, funcs=[mod + cname + '.__getitem__'], config={'class': cname})
 
 
+def unit_slicing_native(cname):
+    """BOUNDED stand-in (never counted as proved) for the part of slicing the field-wise units cannot see - the constructors keep REFERENCES to caller-supplied vectors:
+    geometries built through the real constructors from tuples and from float ndarrays owned by the caller (translations, initial positions, axes), sliced, must agree
+    with their parent and with each other at the kept angles, and slicing must not change the parent."""
+    def run(ctx):
+        from contracts import replay_c19
+        try:
+            bad = replay_c19.check_slicing(cname)
+        except Exception as e:
+            bad = 'native evaluation raised %s: %s' % (type(e).__name__, e)
+        ctx.bounded('slices of geometries built through the real constructors (tuple and caller-owned ndarray arguments) agree with their parent', not bad, {'class': cname}, detail=bad)
+    return Unit('slicing-native/%s' % cname, run, funcs=['odl.tomo.geometry:%s.__init__' % cname, 'odl.tomo.geometry:%s.__getitem__' % cname], kind='B', config={'class': cname},
+                bounded_in='one or two concrete geometries per class, slice [1:4]')
+
+
 def unit_canary():
     """must fail: the transpose of a 2d rotation claimed equal to the rotation"""
     def run(ctx):
@@ -1082,5 +1097,6 @@ def units(tier, seed):
     us.append(unit_cone_factory())
     for cn in SLICE_SPEC:
         us.append(unit_slicing(cn))
+        us.append(unit_slicing_native(cn))
     us.append(unit_canary())
     return us
